@@ -121,6 +121,16 @@ def artefacts_file(path, workdir, tag):
         import shutil
         shutil.rmtree(sd, ignore_errors=True)
     out["splitter_files"] = "\n====\n".join(parts)
+    # the same split written as PDB (tables that do not fit the PDB limits are renamed by fit_to_pdb on the way)
+    sd2 = os.path.join(workdir, f"{tag}.splitpdb")
+    run_tool(splitter, ["-o", sd2, "-f", "PDB", path])
+    parts = []
+    if os.path.isdir(sd2):
+        for fn in sorted(os.listdir(sd2))[:3]:
+            parts.append(fn.replace(os.path.basename(path).rsplit(".", 1)[0], "INPUT") + "\n" + open(os.path.join(sd2, fn)).read())
+        import shutil
+        shutil.rmtree(sd2, ignore_errors=True)
+    out["splitter_pdb_files"] = "\n====\n".join(parts)
     with contextlib.suppress(OSError):
         os.remove(bp)
     # atom table writers
@@ -129,6 +139,13 @@ def artefacts_file(path, workdir, tag):
     out["write_cif"] = write_cif(table)
     if can_write_pdb(table):
         out["write_pdb"] = write_pdb(table)
+    else:
+        from rnapolis.parser_v2 import fit_to_pdb
+
+        try:
+            out["fit_to_pdb_then_write_pdb"] = write_pdb(fit_to_pdb(table))
+        except ValueError as e:
+            out["fit_to_pdb_then_write_pdb"] = "refused: " + str(e)
     for p in (jp, cp, jp + ".cli", cp + ".cli", os.path.join(workdir, f"{tag}.bpseq")):
         with contextlib.suppress(OSError):
             os.remove(p)
